@@ -1097,8 +1097,15 @@ class StrategyBase(Node):
 
         # Adjust prices for bid/offer paid if needed
         if self._bidoffer_set:
-            bidoffer = pd.DataFrame({x.name: x.bidoffers_paid for x in self.securities}).unstack()
-            prc += bidoffer / trades
+            # spread paid per unit of quantity, summed over every holder of a ticker
+            bidoffer = pd.DataFrame()
+            for x in self.securities:
+                paid = x.bidoffers_paid / x.multiplier
+                if x.name in bidoffer.columns:
+                    bidoffer[x.name] += paid
+                else:
+                    bidoffer[x.name] = paid
+            prc += bidoffer.unstack() / trades
 
         res = pd.DataFrame({"price": prc, "quantity": trades}).dropna(subset=["quantity"])
 
